@@ -1,12 +1,12 @@
 """C03 / C04 / C09 — circuit breaker: generators, implementation-side monitors"""
 from gen.util import kvs, tparse
 
-HUGE_WAIT = 18446744073709551615     # Duration::from_millis(u64::MAX)
+HUGE_WAIT = "max"     # Duration::MAX ("stay open until a manual reset")
 
 
 def _w(d):
     """the wait used to choose time advances (a huge wait is never elapsed: advance by ordinary amounts)"""
-    return d["wait"] if d["wait"] < 10 ** 9 else 100
+    return d["wait"] if d["wait"] != "max" else 100
 
 
 FRACS = ["0/1", "1/4", "1/2", "1/2", "3/4", "1/1", "1/10", "3/10", "3/5", "1/8", "5/8"]
@@ -165,7 +165,7 @@ def gen_stale_trial(rng, tier):
     d.pop("sr", None)
     d["fr"] = rng.choice(["1/2", "1/1"])
     p = d["permitted"] = rng.choice([1, 2, 2, 3])
-    if d["wait"] > 10 ** 9:
+    if d["wait"] == "max":
         d["wait"] = 50
     w = d["wait"]
     ops = ["manual force_open", "adv %d" % w]
@@ -213,6 +213,11 @@ def gen_c09(rng, tier):
 
 # ----------------------------------------------------------------------------- monitors
 
+def _wait_of(cfg):
+    w = cfg.get("wait", "1000")
+    return 10 ** 30 if w == "max" else int(w)
+
+
 def frac(s, d):
     a, b = (s or d).split("/")
     return int(a), int(b)
@@ -221,7 +226,7 @@ def frac(s, d):
 def mon_c03(case, lines, meta):
     """no inner call starts between an observed transition to open at t0 and min(t0+wait, next transition)"""
     cfg = kvs(case["header"])
-    wait = int(cfg.get("wait", "1000"))
+    wait = _wait_of(cfg)
     open_since = None
     for i, l in enumerate(lines):
         t, w = tparse(l)
@@ -262,7 +267,7 @@ class Spec:
         self.fr = frac(cfg.get("fr"), "1/2")
         self.slow = int(cfg["slow"]) if "slow" in cfg else None
         self.sr = frac(cfg.get("sr"), "1/1")
-        self.wait = int(cfg.get("wait", "1000"))
+        self.wait = _wait_of(cfg)
         self.permitted = int(cfg.get("permitted", "1"))
         self.cls = int(cfg.get("cls", "0"))
         self.state = "closed"
